@@ -1,7 +1,7 @@
 (* Model/PyLit.v — executable model of how template variables are written to
    and read back from the run database:
      WorkflowDatabaseManager.put_workflow_template_vars   (value -> repr(value))
-     templatevars.eval_var                                (ast.literal_eval)
+     templatevars.eval_var                                (ast.literal_eval + repr readable)
      Scheduler._load_template_vars                        (restart; CLI wins)
    Hand model of CPython's repr() for the literal types and of a canonical
    sub-language of ast.literal_eval, tied to the code by the C37 correspondence
@@ -457,6 +457,14 @@ Section Lit.
     | _, _ => false
     end.
 
+  (* templatevars.eval_var: literal_eval, and the value's repr must itself be
+     readable (it is what the run database will hold); None = InputError *)
+  Definition eval_var (s : text) : option pyval :=
+    match parse s with
+    | Some v => match parse (repr v) with Some _ => Some v | None => None end
+    | None => None
+    end.
+
   (* ---------- the run database and restart ---------- *)
   Definition key := nat.
   Definition vars := list (key * pyval).
@@ -473,7 +481,7 @@ Section Lit.
         match assoc Nat.eqb k tv with
         | Some _ => restart tv r
         | None =>
-            match parse s with
+            match eval_var s with
             | Some v => restart (tv ++ [(k, v)]) r
             | None => None
             end
@@ -496,13 +504,18 @@ Record case := {
   c_vars : list (nat * fval * text * lit_result);   (* key, value accepted at first start, text found in the DB, eval_var(text) *)
   c_cli : list (nat * fval);                    (* variables given on the command line at restart *)
   c_restart : option (list (nat * fval));       (* template_vars after the restart loader; None = InputError *)
-  c_lits : list (text * lit_result)             (* other literal texts and what eval_var makes of them *)
+  c_lits : list (text * lit_result);            (* other literal texts and what eval_var makes of them *)
+  c_rejected : list text                        (* command-line texts refused by eval_var at first start *)
 }.
 
 Definition c_fparse (c : case) (tok : text) : option text := assoc text_eqb tok (c_ftab c).
 Definition c_printable (c : case) (x : Z) : bool := negb (mem Z.eqb x (c_nonprint c)).
 Definition c_repr (c : case) : fval -> text := repr text (fun t => t) (c_printable c).
-Definition c_parse (c : case) : text -> option fval := parse text (c_fparse c).
+Definition c_eval (c : case) : text -> option fval :=
+  eval_var text (fun t => t) (c_fparse c) (c_printable c).
+Definition c_restart_model (c : case) :=
+  restart text (fun t => t) (c_fparse c) (c_printable c) (c_cli c)
+          (map (fun e => let '(k, _, stored, _) := e in (k, stored)) (c_vars c)).
 Definition c_veqb : fval -> fval -> bool := veqb text text_eqb.
 
 Definition vars_eqb (a b : list (nat * fval)) : bool :=
@@ -511,31 +524,36 @@ Definition vars_eqb (a b : list (nat * fval)) : bool :=
 Definition check_var (c : case) (e : nat * fval * text * lit_result) : bool :=
   let '(_, v, stored, back) := e in
   text_eqb (c_repr c v) stored &&
-  match c_parse c stored, back with
+  match c_eval c stored, back with
   | Some v', LOk w => c_veqb v' w
   | None, LErr => true
   | _, _ => false
   end.
 
-(* other texts: whenever the model parser accepts, eval_var returns that value *)
+(* other texts: whenever the model accepts, eval_var returns that value *)
 Definition check_lit (c : case) (e : text * lit_result) : bool :=
-  match c_parse c (fst e), snd e with
+  match c_eval c (fst e), snd e with
   | Some v, LOk w => c_veqb v w
   | Some _, _ => false
   | None, _ => true
   end.
 
+(* texts refused at first start: the model refuses them too *)
+Definition check_rejected (c : case) (s : text) : bool :=
+  match c_eval c s with None => true | Some _ => false end.
+
 Definition check_case (c : case) : bool :=
   forallb (check_var c) (c_vars c)
   && forallb (check_lit c) (c_lits c)
-  && match restart text (c_fparse c) (c_cli c) (map (fun e => let '(k, _, stored, _) := e in (k, stored)) (c_vars c)),
-           c_restart c with
+  && forallb (check_rejected c) (c_rejected c)
+  && match c_restart_model c, c_restart c with
      | Some tv, Some tv' => vars_eqb tv tv'
      | None, None => true
      | _, _ => false
      end.
 
 Definition model_out (c : case) :=
-  (map (fun e => let '(_, v, stored, _) := e in (c_repr c v, c_parse c stored)) (c_vars c),
-   map (fun e => c_parse c (fst e)) (c_lits c),
-   restart text (c_fparse c) (c_cli c) (map (fun e => let '(k, _, stored, _) := e in (k, stored)) (c_vars c))).
+  (map (fun e => let '(_, v, stored, _) := e in (c_repr c v, c_eval c stored)) (c_vars c),
+   map (fun e => c_eval c (fst e)) (c_lits c),
+   map (c_eval c) (c_rejected c),
+   c_restart_model c).
